@@ -825,9 +825,12 @@ class C15(Prop):
                     seen[g] = sym
                 if len(syms) == 1 and name not in reserved and got[syms[0]] != name:
                     return "name %r is unique in its scope and not reserved but was renamed to %r" % (name, got[syms[0]])
+        generated = set(got[key] for key, (_, name) in decls.items() if key[0] != "L" and got[key] != name)
         for key, (_, name) in decls.items():
             if key[0] == "L" and got[key] in reserved:
                 return "local %s is emitted under the reserved name %r" % (key[1], got[key])
+            if key[0] == "L" and got[key] in generated:
+                return "local %s is emitted under %r, a name generated for a global symbol" % (key[1], got[key])
         return None
 
     def nontrivial(self, case, impl):
